@@ -326,7 +326,9 @@ func (fr *Frame) loopHeader(b, prev *ssa.BasicBlock, lrt *loopRT) {
 			}
 		}
 		for _, m := range lc.Modifies {
-			s.havocRegion(s.evalModifies(m, args()), "loop")
+			for _, r := range s.evalModifies(m, args()) {
+				s.havocRegion(r, "loop")
+			}
 		}
 		for _, c := range lc.Invariants {
 			s.assume(s.evalClause(c, args(), s.entry))
